@@ -103,3 +103,115 @@ Print Assumptions C05_len32_translated.
 Print Assumptions C05_len64_translated.
 Print Assumptions C05_write32_translated.
 Print Assumptions C05_write64_translated.
+
+(* ---- phase 4: the io layer is TRANSLATED too (tools/gotrans/c05.go -> Gen/C05gen.v on every run): VarInt.ReadFrom
+   and VarLong.ReadFrom (the loop as a Fixpoint on fuel), CreateByteReader, byteReaderWrapper.ReadByte, readByte,
+   VarInt.WriteTo and VarLong.WriteTo.  `br` is the outcome of the type assertion r.(io.ByteReader): both paths. *)
+From GoMC Require Model.C05_syntax Gen.C05gen Proofs.C05_tie_r.
+(* the two implementations of io.ByteReader that CreateByteReader hands out deliver the next byte or fail with EOF *)
+Theorem C05_byte_source_translated : forall (br : bool) (s : list N),
+  run_flat (C05gen.packet_CreateByteReader_io br) s = run_flat (ReadByte (fun b => Ret (C05_syntax.gbyte b))) s.
+Proof. exact C05_tie_r.tie_byte_source. Qed.
+Theorem C05_readByte_translated : forall (br : bool) (s : list N),
+  run_flat (C05gen.packet_readByte_io br) s = run_flat (ReadByte (fun b => Ret (1%Z, C05_syntax.gbyte b))) s.
+Proof. exact C05_tie_r.tie_readByte. Qed.
+(* the translated readers run exactly like the model's read32 / read64 on EVERY input: same value, count, rest,
+   same error class at the same byte (too long a run, EOF inside); in particular the fuel never runs out *)
+Theorem C05_read32_translated : forall (br : bool) (s : list N),
+  run_flat (C05gen.packet_VarInt_ReadFrom_io br) s = C05_tie_r.fmapr C05_tie_r.cnt_z (run_flat read32 s).
+Proof. exact C05_tie_r.tie_VarInt_ReadFrom. Qed.
+Theorem C05_read64_translated : forall (br : bool) (s : list N),
+  run_flat (C05gen.packet_VarLong_ReadFrom_io br) s = C05_tie_r.fmapr C05_tie_r.cnt_z (run_flat read64 s).
+Proof. exact C05_tie_r.tie_VarLong_ReadFrom. Qed.
+Theorem C05_robust32_translated : forall br : bool, robust (C05gen.packet_VarInt_ReadFrom_io br).
+Proof. exact C05_tie_r.robust_VarInt_ReadFrom. Qed.
+Theorem C05_robust64_translated : forall br : bool, robust (C05gen.packet_VarLong_ReadFrom_io br).
+Proof. exact C05_tie_r.robust_VarLong_ReadFrom. Qed.
+(* the translated WriteTo never panics on vi[:nn], reports Len bytes and hands exactly the model's bytes to w.Write *)
+Theorem C05_writeTo32_translated : forall v : Z,
+  C05gen.packet_VarInt_WriteTo_io v = GoInt.GoRet (Z.of_N (lenN (write32 v)), 0, map Z.of_N (write32 v)).
+Proof. exact C05_tie_r.tie_VarInt_WriteTo. Qed.
+Theorem C05_writeTo64_translated : forall v : Z,
+  C05gen.packet_VarLong_WriteTo_io v = GoInt.GoRet (Z.of_N (len64 v), 0, map Z.of_N (write64 v)).
+Proof. exact C05_tie_r.tie_VarLong_WriteTo. Qed.
+(* the headline theorems over the translated writer and the translated reader TOGETHER *)
+Theorem C05_roundtrip_translated : forall (br : bool) (v : Z) (rest : list N), in_sw 32 v ->
+  run_flat (C05gen.packet_VarInt_ReadFrom_io br) (C05_tie_r.out_bytes (C05gen.packet_VarInt_WriteTo_io v) ++ rest)
+  = FOk (v, C05_tie_r.out_n (C05gen.packet_VarInt_WriteTo_io v)) rest.
+Proof. exact C05_tie_r.roundtrip32_translated. Qed.
+Theorem C05_roundtrip64_translated : forall (br : bool) (v : Z) (rest : list N), in_sw 64 v ->
+  run_flat (C05gen.packet_VarLong_ReadFrom_io br) (C05_tie_r.out_bytes (C05gen.packet_VarLong_WriteTo_io v) ++ rest)
+  = FOk (v, C05_tie_r.out_n (C05gen.packet_VarLong_WriteTo_io v)) rest.
+Proof. exact C05_tie_r.roundtrip64_translated. Qed.
+Theorem C05_len_writeTo32_translated : forall v : Z, in_sw 32 v ->
+  Funcs.packet_VarInt_Len v = C05_tie_r.out_n (C05gen.packet_VarInt_WriteTo_io v) /\
+  Funcs.packet_VarInt_Len v = Z.of_N (lenN (C05_tie_r.out_bytes (C05gen.packet_VarInt_WriteTo_io v))).
+Proof. exact C05_tie_r.len_translated32. Qed.
+Theorem C05_len_writeTo64_translated : forall v : Z, in_sw 64 v ->
+  Funcs.packet_VarLong_Len v = C05_tie_r.out_n (C05gen.packet_VarLong_WriteTo_io v) /\
+  Funcs.packet_VarLong_Len v = Z.of_N (lenN (C05_tie_r.out_bytes (C05gen.packet_VarLong_WriteTo_io v))).
+Proof. exact C05_tie_r.len_translated64. Qed.
+Theorem C05_cap32_translated : forall (br : bool) (s : list N),
+  match run_flat (C05gen.packet_VarInt_ReadFrom_io br) s with
+  | FOk (_, n) rest => (0 <= n <= 5)%Z /\ Z.of_N (lenN s) = (n + Z.of_N (lenN rest))%Z
+  | FErr _ => True
+  | _ => False
+  end.
+Proof. exact C05_tie_r.cap32_translated. Qed.
+Theorem C05_cap64_translated : forall (br : bool) (s : list N),
+  match run_flat (C05gen.packet_VarLong_ReadFrom_io br) s with
+  | FOk (_, n) rest => (0 <= n <= 10)%Z /\ Z.of_N (lenN s) = (n + Z.of_N (lenN rest))%Z
+  | FErr _ => True
+  | _ => False
+  end.
+Proof. exact C05_tie_r.cap64_translated. Qed.
+Theorem C05_long_run32_translated : forall (br : bool) s t, lenN s = 5 -> Forall (fun b => N.land b 128 <> 0) s ->
+  is_err (run_flat (C05gen.packet_VarInt_ReadFrom_io br) (s ++ t)) = true.
+Proof. exact C05_tie_r.long_run32_translated. Qed.
+Theorem C05_long_run64_translated : forall (br : bool) s t, lenN s = 10 -> Forall (fun b => N.land b 128 <> 0) s ->
+  is_err (run_flat (C05gen.packet_VarLong_ReadFrom_io br) (s ++ t)) = true.
+Proof. exact C05_tie_r.long_run64_translated. Qed.
+Example C05_ex_translated :
+  run_flat (C05gen.packet_VarInt_ReadFrom_io false) [255; 255; 255; 255; 15; 7] = FOk ((-1)%Z, 5%Z) [7] /\
+  run_flat (C05gen.packet_VarInt_ReadFrom_io true) [128; 128; 128; 128; 128; 1] = FErr eTooBig /\
+  C05gen.packet_VarLong_WriteTo_io (-1) = GoInt.GoRet (10%Z, 0, [255;255;255;255;255;255;255;255;255;1]%Z).
+Proof. vm_compute. repeat split. Qed.
+
+(* ---- C06gen's String / ByteArray / BitSet readers with their VarInt.ReadFrom PARAMETER instantiated by the
+   translation above run like the C06 model readers (Proofs/C05_c06_inst.v) *)
+From GoMC Require Gen.C06gen Model.C06 Model.C06_syntax Proofs.C06_tie_r Proofs.C05_c06_inst.
+Theorem C05_String_read_inst : forall (br : bool) (s : list N), all_bytes s ->
+  C06_tie_r.fmapr C06_tie_r.inj_bytes
+    (run_flat (C06gen.packet_String_ReadFrom_io (C05gen.packet_VarInt_ReadFrom_io br)) s) = run_flat C06.r_string s.
+Proof. exact C05_c06_inst.inst_String_read. Qed.
+Theorem C05_ByteArray_read_inst : forall (br : bool) (bs0 sp0 : list N) (s : list N), all_bytes s ->
+  C06_tie_r.fmapr C06_tie_r.inj_slice
+    (run_flat (C06gen.packet_ByteArray_ReadFrom_io (C05gen.packet_VarInt_ReadFrom_io br) (map Z.of_N bs0) (map Z.of_N sp0)) s)
+  = run_flat (C06.r_bytearray (C06.VBytes bs0 sp0)) s.
+Proof. exact C05_c06_inst.inst_ByteArray_read. Qed.
+Theorem C05_BitSet_read_inst : forall (br : bool) (fuel : nat) (old : C06.fval) (b sp : list Z) (s : list N), all_bytes s ->
+  (forall l n rest, run_flat read32 s = FOk (l, n) rest -> (Z.to_nat l <= fuel)%nat) ->
+  C06_tie_r.fmapr C06_tie_r.inj_bitset
+    (run_flat (C06gen.packet_BitSet_ReadFrom_io (C05gen.packet_VarInt_ReadFrom_io br) b sp) s)
+  = run_flat (C06.r_bitset fuel old) s.
+Proof. exact C05_c06_inst.inst_BitSet_read. Qed.
+
+Print Assumptions C05_byte_source_translated.
+Print Assumptions C05_readByte_translated.
+Print Assumptions C05_read32_translated.
+Print Assumptions C05_read64_translated.
+Print Assumptions C05_robust32_translated.
+Print Assumptions C05_robust64_translated.
+Print Assumptions C05_writeTo32_translated.
+Print Assumptions C05_writeTo64_translated.
+Print Assumptions C05_roundtrip_translated.
+Print Assumptions C05_roundtrip64_translated.
+Print Assumptions C05_len_writeTo32_translated.
+Print Assumptions C05_len_writeTo64_translated.
+Print Assumptions C05_cap32_translated.
+Print Assumptions C05_cap64_translated.
+Print Assumptions C05_long_run32_translated.
+Print Assumptions C05_long_run64_translated.
+Print Assumptions C05_String_read_inst.
+Print Assumptions C05_ByteArray_read_inst.
+Print Assumptions C05_BitSet_read_inst.
